@@ -13,6 +13,8 @@ pub mod c07;
 pub mod c08;
 pub mod c10;
 pub mod c14;
+pub mod c17;
+pub mod c19;
 
 pub struct PropDef {
 	pub id: &'static str,
@@ -38,7 +40,7 @@ pub fn default_watchdog(tier: &str) -> u64 {
 }
 
 pub fn all() -> Vec<PropDef> {
-	vec![c01::def(), c02::def(), c03::def(), c04::def(), c06::def(), c07::def(), c08::def(), c10::def(), c14::def()]
+	vec![c01::def(), c02::def(), c03::def(), c04::def(), c06::def(), c07::def(), c08::def(), c10::def(), c14::def(), c17::def(), c19::def()]
 }
 
 #[derive(Clone, Debug, Deserialize)]
